@@ -28,6 +28,7 @@ fn main() {
             "C10" => c10::replay(&v["case"]),
             "C11" => c11::replay(&v["case"]),
             "C12" => c12::replay(&v["case"]),
+            "C13" => c13::replay(&v["case"]),
             "C14" => c14::replay(&v["case"]),
             "C15" => c15::replay(&v["case"]),
             "C19" => c19::replay(&v["case"]),
@@ -63,8 +64,10 @@ fn main() {
         "C10" => c10::run(tier),
         "C11" => c11::run(tier),
         "C12" => c12::run(tier),
+        "C13" => c13::run(tier),
         "C14" => c14::run(tier),
         "C15" => c15::run(tier),
+        "C18" => c18::run(tier),
         "C19" => c19::run(tier),
         other => machinery_error(&format!("unknown property {other}")),
     }
